@@ -398,6 +398,26 @@ func (ex *Exec) strEq(x, y Value) Value {
 	if len(a) != len(b) {
 		return false
 	}
+	return ex.bytesEq(a, b)
+}
+
+// bytesEq compares two equally long byte sequences. Runs of bytes are compared as wide terms so that
+// bytes that are slices of one wide value (keys, signatures) give one equation instead of many.
+func (ex *Exec) bytesEq(a, b []Value) Value {
+	if len(a) == 0 {
+		return true
+	}
+	if len(a) > 8 {
+		pa := make([]*Term, len(a))
+		pb := make([]*Term, len(b))
+		for i := range a {
+			pa[i] = ex.toTerm(a[i], 8)
+			pb[i] = ex.toTerm(b[i], 8)
+		}
+		ta, tb := ex.ts.Concat(pa...), ex.ts.Concat(pb...)
+		// compare component-wise where both sides split at the same boundaries, else as a whole
+		return ex.fromTerm(ex.ts.Eq(ta, tb))
+	}
 	var res Value = true
 	for i := range a {
 		ac, aok := a[i].(uint64)
